@@ -14,16 +14,24 @@
  *                                with a nested bintree_free (same deallocator: nesting goes on), then node i → ok
  *   free | freel i | freer i     bintree_free(root) / _left(i) / _right(i)  → freed …  (ids in the order the
  *                                deallocator is entered)
+ *   viz                          bintree_visualize(root) into a memory stream → viz <text, NL as |, TAB as >>
+ *   dot ok | dot fail K          bintree_graphviz(root) into a healthy memory stream → dot <number of lines>;
+ *                                or into an unbuffered stream whose write fails once K bytes went through → dot done
+ *   leaf i                       bintree_is_leaf(node i)                    → leaf 0|1
+ *   complete                     bintree_iterate_complete on an iteration cut short by K → done
+ *                                (these only observe the tree: the link image afterwards must be the one before)
  *   image                        all links: `left,tag,right` per node, `x` for a deallocated node
  *   reset, "--" (echoed)
  * `h_bintree --stack K` runs the whole command loop in a thread with a K KiB stack: code whose stack use grows
  * with the depth of the tree overflows it on a deep chain (SIGSEGV on the guard page), constant-space code
  * does not.  The harness compares nothing itself.
  */
+#define _GNU_SOURCE /* fopencookie */
 #include <stdio.h>
 #include <stdlib.h>
 #include <string.h>
 #include <stdint.h>
+#include <sys/types.h>
 #include <pthread.h>
 #include "bintree.c"
 
@@ -147,6 +155,30 @@ static void show(bintree_node_t *n)
 		put_ptr(it.parent);
 	}
 	fflush(stdout);
+}
+
+/* labels for visualize/graphviz: the id, odd ids with a quote so that graphviz's escape() allocates; NULL is "-" */
+static char *labeller(bintree_node_t *n)
+{
+	char buf[32];
+	if (!n)
+		return strdup("-");
+	int id = id_of(n);
+	snprintf(buf, sizeof buf, (id & 1) ? "%d\"" : "%d", id);
+	return strdup(buf);
+}
+
+/* a stream that takes `budget` bytes and then fails every write */
+static ssize_t failing_write(void *cookie, const char *buf, size_t size)
+{
+	long *budget = cookie;
+	(void)buf;
+	if (*budget <= 0)
+		return 0; /* error */
+	if ((long)size > *budget)
+		size = (size_t)*budget;
+	*budget -= (long)size;
+	return (ssize_t)size;
 }
 
 static bintree_node_t *parse_ptr(const char *w)
@@ -303,6 +335,52 @@ static void *run(void *arg)
 				opened = 0;
 			}
 			printf("\n");
+		} else if (!strcmp(op, "complete")) {
+			if (opened) {
+				bintree_iterate_complete(&it);
+				opened = 0;
+			}
+			puts("done");
+		} else if (!strcmp(op, "leaf")) {
+			char *w = strtok_r(NULL, " \t\r\n", &save);
+			int i = w ? atoi(w) : -1;
+			if (i < 0 || i >= nnodes || !live[i]) {
+				puts("bad-op");
+				continue;
+			}
+			printf("leaf %d\n", (int)bintree_is_leaf((bintree_node_t *)nodes[i]));
+		} else if (!strcmp(op, "viz")) {
+			char *buf = NULL;
+			size_t sz = 0;
+			FILE *f = open_memstream(&buf, &sz);
+			bintree_visualize(root, f, labeller);
+			fclose(f);
+			for (size_t k = 0; k < sz; k++)
+				buf[k] = buf[k] == '\n' ? '|' : buf[k] == '\t' ? '>' : buf[k];
+			printf("viz %s\n", buf);
+			free(buf);
+		} else if (!strcmp(op, "dot")) {
+			char *mode = strtok_r(NULL, " \t\r\n", &save);
+			char *k = strtok_r(NULL, " \t\r\n", &save);
+			if (mode && !strcmp(mode, "ok")) {
+				char *buf = NULL;
+				size_t sz = 0, lines = 0;
+				FILE *f = open_memstream(&buf, &sz);
+				bintree_graphviz(root, f, labeller);
+				fclose(f);
+				for (size_t j = 0; j < sz; j++)
+					lines += buf[j] == '\n';
+				printf("dot %zu\n", lines);
+				free(buf);
+			} else {
+				long budget = k ? atol(k) : 0;
+				cookie_io_functions_t io = { .write = failing_write };
+				FILE *f = fopencookie(&budget, "w", io);
+				setvbuf(f, NULL, _IONBF, 0); /* every fprintf reaches the failing write at once */
+				bintree_graphviz(root, f, labeller);
+				fclose(f);
+				puts("dot done");
+			}
 		} else if (!strcmp(op, "trav")) {
 			char *o = strtok_r(NULL, " \t\r\n", &save);
 			if (!o) {
